@@ -253,6 +253,24 @@ def info_variant(repo):
 INFO_VARIANT = {"v": "plain"}
 
 
+def best_fit_variant(repo):
+    """which Fit.best_fit the tree has: 'as-written' (start value -inf, strict `>` on every child) or 'skips-none'
+    (children whose max_log_likelihood `is None` are skipped and no -inf start value is used: the proposed repair).
+    Only selects which MODEL the correspondence compares with; the oracle does not depend on it."""
+    tree = ast.parse(open(os.path.join(repo, FIT_MODEL)).read())
+    for cls in [n for n in tree.body if isinstance(n, ast.ClassDef) and n.name == "Fit"]:
+        for fn in [n for n in cls.body if isinstance(n, ast.FunctionDef) and n.name == "best_fit"]:
+            src = ast.unparse(fn)
+            skips = any(isinstance(n, ast.If) and "max_log_likelihood is None" in ast.unparse(n.test)
+                        and any(isinstance(b, ast.Continue) for b in n.body) for n in ast.walk(fn))
+            if skips and "best_fit is None or" in src and "inf" not in src:
+                return "skips-none"
+    return "as-written"
+
+
+BEST_FIT_VARIANT = {"v": "as-written"}
+
+
 def generate(repo, outfile):
     classes = search_classes(repo)
     uf, src = grid_id_uses_folder(repo)
@@ -1149,8 +1167,9 @@ def coq_case(c, r):
             bf = f.get("best_fit")
             obs = "ObsBestRaised" if (isinstance(bf, str) and bf.startswith("exc:")) else "ObsBestNone" if bf in ("none", None) else "(ObsBestId %s)" % cstr(bf)
             best.append("(%s, %s, %s)" % (cstr(f["id"]), obs, c_strs(byp.get(f["id"], []))))
-    return "CDir %s %s %s %s %s" % (cbool(c.get("completed_only", False)), clist([c_folder(x) for x in folders]),
-                                    c_observed(r["scrape"]), clist(best), c_paths(unfaithful)), None
+    return "CDir %s %s %s %s %s %s" % (cbool(c.get("completed_only", False)), clist([c_folder(x) for x in folders]),
+                                       c_observed(r["scrape"]), clist(best), c_paths(unfaithful),
+                                       cbool(BEST_FIT_VARIANT["v"] == "skips-none")), None
 
 
 def coq_disk_case(c, r):
@@ -1452,7 +1471,9 @@ def run(ctx):
                 "(b) scenarios: 2-4 fits (scripted single fits with generated model shape / samples / interruption point / info / layout "
                 "zip|folder|both / 1-3 combined analyses, fits whose pre-fit output (save_all) is interrupted at each of its 9 points -- first run "
                 "and re-run, harness-side fault injection incl. a kill inside json.dump and an unserialisable info value -- beside healthy fits, "
-                "grid searches with 2 or 4 cells, real search classes, copied folders) written by the "
+                "grid searches with 2 or 4 cells, real search classes, copied folders; one grid search per likelihood profile of its cells in every run: "
+                "best cell exactly 0.0 above negatives / above -inf, 0.0 below a positive, all positive, mixed signs, ties at 0.0 and elsewhere, "
+                "-inf in some / all cells, last cell without samples) written by the "
                 "real code into one output directory that is then loaded with add_directory(completed_only in {False,True}) and also written "
                 "through a database session. A settings case is non-trivial when it has keywords or a tag; a scenario when its directory holds "
                 ">= 2 fit / grid-search folders. distinct = distinct abstract input")
@@ -1468,7 +1489,10 @@ def run(ctx):
         "ids are opaque strings; `f_reload_id` (md5 of the tokens of the reloaded search, reloaded model and tag) is an oracle value per folder",
         "theorems about scrape assume distinct identifiers (NoDup) and readable search settings; the cases outside are covered by the "
         "_refuted witnesses and by correspondence only",
-        "best fit of a grid search is stated as: a linked cell whose likelihood is maximal (ties: any)",
+        "best fit of a grid search is stated as: as soon as one linked cell holds a likelihood (any sign, 0.0, -inf), a linked cell whose "
+        "likelihood is maximal among the cells holding one (ties: any; best_fits() may list all tied cells and nothing else of that grid "
+        "search), through Fit.best_fit, the fit the aggregator hands out, and grid_searches().best_fits(), in the scraped and in the "
+        "session-written database; likelihoods enter the model as order-preserving integer keys (NaN is not generated)",
         "session route: the parent row of a fit with combined analyses is compared; its child fits are out of scope (a session "
         "creates one child named 'analyses/analysis_0' with its own identifier, the scraper one '<id>_<i>' per analyses folder); "
         "path_prefix is not compared (a scraped fit has none)",
@@ -1481,6 +1505,7 @@ def run(ctx):
     try:
         info = regenerate()
         INFO_VARIANT["v"] = info_variant(common.REPO)
+        BEST_FIT_VARIANT["v"] = best_fit_variant(common.REPO)
         ctx.translated = {"gs_id_uses_folder": {"source": info["gs_id_source"], "line": 0},
                           "fit_info_setter": {"source": INFO_VARIANT["v"], "line": 0}}
         for cl in info["classes"]:
@@ -1492,6 +1517,7 @@ def run(ctx):
         ctx.notes["code_variant"] = {
             "grid_search_id": "folder name (C11_grid applies)" if info["gs_id_uses_folder"] else "marker text: REGRESSION of d04d2bc (C11_grid no longer compiles)",
             "fit_info_setter": INFO_VARIANT["v"],
+            "fit_best_fit": BEST_FIT_VARIANT["v"],
             "drawer_pops_number_of_cores": any(cl["name"] == "Drawer" and "number_of_cores" in cl["chain"][0]["pops"] for cl in info["classes"]),
         }
     except TranslationError as e:
@@ -1660,7 +1686,9 @@ MANIFEST = {
             "database under distinct identifiers; one row per fit folder holding its model/instance/samples/flag/info, id = folder name under "
             "an explicit faithful-reload hypothesis that the correspondence evaluates per folder; every generated search class reads back for "
             "every subset of its persisted-key universe; a second load keeps the first; grid parents linked "
-            "to exactly their cells with a maximal-likelihood best fit; agreement with the session route; a fit interrupted anywhere inside "
+            "to exactly their cells with a maximal-likelihood best fit -- Fit.best_fit as written (partial: every cell holds a likelihood and "
+            "one is above -inf; refuted outside), the best_fits() query (exactly the cells of highest likelihood) and the repaired Fit.best_fit "
+            "(total), for likelihood keys of every sign --; agreement with the session route; a fit interrupted anywhere inside "
             "save_all leaves the load unchanged), _refuted witnesses for the two "
             "defects of the pinned code, plus vm_compute correspondence with real fits written and loaded by the running code and a "
             "direct property oracle on every generated scenario",
